@@ -9,7 +9,7 @@ import vlib
 PROG = "uconn"
 VIOLATION_KINDS = {"WireIsRaw", "EditsVisible", "RawIsLastSent", "norm"}
 VIOLATION_ORDER = {"hello-written-without-rebuild", "hello-written-unasked"}
-MUTATORS = ["SetClientRandom", "SetSNI", "RemoveSNI", "EditSuites", "EditSessionId", "ExtInsert", "ExtRemove", "ExtALPN"]
+MUTATORS = ["SetClientRandom", "SetSNI", "RemoveSNI", "EditSuites", "EditSessionId", "ExtInsert", "ExtRemove", "ExtALPN", "ExtSNIField"]
 CLAIMS = ["random", "sid", "suites", "sni", "nosni", "ext", "noext", "front"]
 
 
@@ -216,12 +216,18 @@ def run(ctx):
         if "EditsVisible" not in asis.violated:
             raise vlib.Machinery("UConnBuild_MC_asis: EditsVisible is expected to fail for the flag-only RemoveSNIExtension, TLC says %r" % asis.violated)
         return []
+    # SNI configuration: SetSNI over every argument class (other name, same name, IPv4 / IPv6 literals, "", trailing dot,
+    # 253 bytes), the direct edit of SNIExtension.ServerName, RemoveSNIExtension; sequences of length <= 2
+    sni = lambda: gen_paths(ctx, "UConnBuild_MC_sni" if ctx.quick else "UConnBuild_MC_sni_full", 4, 1500)[0]
     if ctx.quick:
-        jobs = [mc_asis, lambda: gen_paths(ctx, "UConnBuild_MC", 10, 1500)[0], lambda: gen_paths(ctx, "UConnBuild_MC_nosess", 3, 600)[0]]
+        jobs = [mc_asis, lambda: gen_paths(ctx, "UConnBuild_MC", 9, 1500)[0], lambda: gen_paths(ctx, "UConnBuild_MC_nosess", 2, 600)[0], sni]
     else:
-        jobs = [mc_asis, lambda: gen_paths(ctx, "UConnBuild_MC_deep", 12, 3000)[0], lambda: gen_paths(ctx, "UConnBuild_MC_alt", 4, 1500)[0]]
-    with cf.ThreadPoolExecutor(max_workers=3) as ex:
-        _, paths, deep_paths = [f.result() for f in [ex.submit(j) for j in jobs]]
+        jobs = [mc_asis, lambda: gen_paths(ctx, "UConnBuild_MC_deep", 10, 3000)[0], lambda: gen_paths(ctx, "UConnBuild_MC_alt", 3, 1500)[0], sni]
+    with cf.ThreadPoolExecutor(max_workers=4) as ex:
+        _, paths, deep_paths, sni_paths = [f.result() for f in [ex.submit(j) for j in jobs]]
+    if ctx.quick:
+        sni_paths = [p for p in sni_paths if p["mode"] != "both" and
+                     (p["server"] == "plain" or (p["server"] == "hrr" and p["mode"] == "before" and nmut(p) <= 1))]
     lap("model checking done")
     scns = []
     def add(p, i):
@@ -229,10 +235,15 @@ def run(ctx):
         s["id"] = i
         s["sc"] = len(scns)
         scns.append(s)
-    for p in paths + deep_paths:
+    for p in paths + deep_paths + sni_paths:
         for i in reps[p["cls"]]:
             add(p, i)
     if not ctx.quick:
+        for p in sni_paths:
+            if p["server"] == "plain":
+                for i in by[p["cls"]]:
+                    if i not in reps[p["cls"]]:
+                        add(p, i)
         # every other id: all paths with at most two mutators (all build modes, all servers)
         for p in paths + deep_paths:
             if nmut(p) <= 2:
@@ -296,7 +307,7 @@ def run(ctx):
             ctx.findings.append(dict(ctx.findings[-1]))
 
     # ---- honesty: vacuity and canary (after the findings: a broken tree must not end as a machinery error)
-    need = MUTATORS + CLAIMS + ["Build", "BuildNoSess", "ApplyPreset", "rebuilt", "ch1", "ch2", "hrr", "hrr_cookie", "done", "done_hrr", "seeded", "psk"]
+    need = MUTATORS + CLAIMS + ["Build", "BuildNoSess", "ApplyPreset", "rebuilt", "ch1", "ch2", "hrr", "hrr_cookie", "done", "done_hrr", "seeded", "psk", "sni_literal"]
     missing = [k for k in need if totals.get(k, 0) == 0]
     if missing and not ctx.findings:
         raise vlib.Machinery("vacuous: never exercised / never judged: %r (statistics %r)" % (missing, totals))
@@ -326,7 +337,8 @@ def run(ctx):
                    "UConn of a ClientHelloID of that class and judged by TLC; non-trivial = the replay put a ClientHello on the wire, so "
                    "that WireIsRaw and EditsVisible were evaluated on recorded bytes (paths are distinct by construction; the rest failed before sending)"
                    % (3 if ctx.quick else 4),
-           "paths_from_model": len(paths) + len(deep_paths), "ids": sorted({s["id"] for s in scns}), "n_ids": len({s["id"] for s in scns}),
+           "paths_from_model": len(paths) + len(deep_paths) + len(sni_paths),
+           "sni_claims_of_a_literal_or_empty_name_judged": totals.get("sni_literal", 0), "ids": sorted({s["id"] for s in scns}), "n_ids": len({s["id"] for s in scns}),
            "claims_judged_by_kind": {k: totals.get(k, 0) for k in CLAIMS},
            "calls_by_kind": {k: totals.get(k, 0) for k in MUTATORS + ["Build", "BuildNoSess", "ApplyPreset"]},
            "edits_made_on_an_unprotected_hello_not_claimed": totals.get("unprotected", 0),
@@ -346,7 +358,7 @@ def explain(kind, detail):
     if kind == "EditsVisible":
         return {"nosni": "RemoveSNIExtension was called on a built hello but the rebuilt Hello.Raw still carries server_name",
                 "random": "the client random set with SetClientRandom is not in the rebuilt Hello.Raw",
-                "sni": "the name set with SetSNI is not the server_name of the rebuilt Hello.Raw",
+                "sni": "the name given to SetSNI / assigned to SNIExtension.ServerName is not what the rebuilt Hello.Raw indicates (hostnameInSNI: literals and the empty name mean no server_name extension)",
                 "suites": "Hello.CipherSuites as edited is not the cipher suite list of the rebuilt Hello.Raw",
                 "sid": "Hello.SessionId as edited is not the session id of the rebuilt Hello.Raw",
                 "ext": "an extension inserted / changed in UConn.Extensions is not in the rebuilt Hello.Raw with that body",
